@@ -806,6 +806,662 @@ def translate(repo):
     return {"classes": out, "not_covered": skipped, "facts": facts}
 
 
+# ==================================================================================================
+# Part 2: every @rpc_method (other than open/close) as a term of `mprog` (theories/C19/Model.v, part 2)
+# ==================================================================================================
+#
+# The method translation is PERMISSIVE in control flow (loops, early return, break, nested calls, comprehensions:
+# everything is mapped to an over-approximation of the sequence of operations) and FAIL-CLOSED in what matters for
+# "a closed instrument performs no device I/O": which operations can touch the device.
+#
+#   self.L.<m>(...)                  L a link attribute (create_transport)            -> MDev line
+#   self.W.<m>(...)                  W assigned from  Klass(..self.L..)  with Klass a plain class of the scanned tree
+#                                    (ScpiProtocol, AptProtocol, NKTPhotonicsInterbusProtocol): protocol object
+#                                    around the link                                  -> MDev line
+#   self.R.<m>(...), any mention of self.R outside `is [not] None`
+#                                    R assigned from any other constructor call (thread, timer, unknown class)
+#                                                                                     -> MEff line
+#   self.<callable attribute>(...)   not a method of the class                        -> MEff line
+#   self.L / self.W passed around (not as receiver)                                   -> MDev line
+#   self._check_is_open() / _check_is_closed()  (QMI_Instrument's)                    -> MCheckOpen / MCheckClosed
+#   self.<helper>(...) / super().<helper>(...)  -> MCall <named definition of the helper's body>, or MIo if the
+#                                    helper (transitively) contains none of MDev/MEff/MCheck*/MAssume*
+#   if [not] self._is_open / self.is_open()  -> MChoice (MAssumeOpen; A) (MAssumeClosed; B)
+#   anything else that is not a name / constant / attribute read                      -> MIo line
+#   a method that writes self._is_open, assigns a link attribute, calls self.open()/close()/__enter__/__exit__ or
+#   L.open()/L.close(), is a generator or a coroutine                                 -> NOT TRANSLATED (reported)
+#
+# Assumptions (stated in the evidence): a protocol object reaches the device only through the transport it was
+# given; attribute reads and property getters do not touch the device; functions that are not methods of the
+# class (module functions, builtins) do not touch the device unless they are handed the link (-> MDev).
+
+DATA_CTORS = {"deque", "dict", "list", "set", "tuple", "bytearray", "bytes", "str", "int", "float", "bool",
+              "OrderedDict", "defaultdict", "Lock", "RLock", "Condition", "Event", "frozenset", "Decimal"}
+RELEVANT_RE = re.compile(r"MDev|MEff|MCheckOpen|MCheckClosed|MAssume|__h_")
+
+
+def mseq(items):
+    """sequence of atoms; adjacent MIo collapse (MIo;MIo has the executions of MIo)"""
+    out = []
+    for it in items:
+        if it is None or it == "MSkip":
+            continue
+        if it.startswith("MIo ") and out and out[-1].startswith("MIo "):
+            continue
+        out.append(it)
+    if not out:
+        return "MSkip"
+    if len(out) == 1:
+        return out[0]
+    return "mseql [%s]" % "; ".join(out)
+
+
+def mchoice(a, b):
+    if a == b:
+        return a
+    return "MChoice (%s) (%s)" % (a, b)
+
+
+class MCtx(Ctx):
+    """method translation for one (class, link configuration)"""
+
+    def __init__(self, table, cls, mro, links, live_link, base, ident):
+        super().__init__(table, cls, mro, links, live_link, base)
+        self.ident = ident
+        self.kinds = self._classify_attrs()
+        self.helpers = {}        # (defcls name, fn name) -> coq ident | None (irrelevant -> MIo) | "…in progress"
+        self.defs = []           # (coq ident, text, origin) in dependency order
+
+    # -- attribute kinds ------------------------------------------------------------------------
+    def _classify_attrs(self):
+        kinds = {l: "link" for l in self.links}
+        found = {}
+        self.nullable = set()       # attributes that are assigned None somewhere
+        self.assumed_none_when_closed = set()
+        self.wrapper_classes = {}   # attr -> Cls of the protocol object
+        for k in self.mro:
+            if k is self.base:
+                continue
+            for fn in k.methods.values():
+                for n in ast.walk(fn):
+                    if not isinstance(n, (ast.Assign, ast.AnnAssign)) or n.value is None:
+                        continue
+                    targets = n.targets if isinstance(n, ast.Assign) else [n.target]
+                    for t in targets:
+                        if is_self_attr(t) and t.attr not in self.links:
+                            found.setdefault(t.attr, []).append((k, n.value))
+                            if isinstance(n.value, ast.Constant) and n.value.value is None:
+                                self.nullable.add(t.attr)
+        for attr, vals in found.items():
+            kind = "data"
+            for k, v in vals:
+                if not isinstance(v, ast.Call):
+                    continue
+                f = v.func
+                nm = f.id if isinstance(f, ast.Name) else f.attr if isinstance(f, ast.Attribute) else ""
+                if not (nm.lstrip("_")[:1].isupper()):
+                    continue                       # a function call: its result is a value
+                target = None
+                if isinstance(f, ast.Name):
+                    target = self.table.lookup(k.module, f.id)
+                plain = target is not None and not target.node.bases
+                mentions_link = any(is_self_attr(x) and x.attr in self.links
+                                    for a in list(v.args) + [kw.value for kw in v.keywords] for x in ast.walk(a))
+                if mentions_link and plain:
+                    this = "wrapper"
+                    self.wrapper_classes[attr] = target
+                elif mentions_link:
+                    this = "resource"
+                elif nm in DATA_CTORS or plain or (target is not None and self._is_value_class(target)):
+                    this = "data"
+                else:
+                    this = "resource"
+                order = {"data": 0, "wrapper": 1, "resource": 2}
+                if order[this] > order[kind]:
+                    kind = this
+            kinds[attr] = kind
+        return kinds
+
+    @staticmethod
+    def _is_value_class(c):
+        return all(isinstance(b, (ast.Name, ast.Attribute)) and
+                   (b.id if isinstance(b, ast.Name) else b.attr) in ("Enum", "IntEnum", "NamedTuple", "IntFlag", "Flag")
+                   for b in c.node.bases)
+
+    def kind(self, attr):
+        return self.kinds.get(attr, "data")
+
+    # -- expressions -----------------------------------------------------------------------------
+    def root_self_attr(self, e):
+        """self.X for an attribute/subscript chain self.X.a[b].c, else None"""
+        while isinstance(e, (ast.Attribute, ast.Subscript)):
+            if is_self_attr(e):
+                return e.attr
+            e = e.value
+        return None
+
+    def evs(self, es, defcls):
+        out = []
+        for e in es:
+            out.extend(self.ev(e, defcls))
+        return out
+
+    def ev(self, e, defcls):
+        if e is None or isinstance(e, (ast.Constant, ast.Name)):
+            return []
+        if isinstance(e, ast.Attribute):
+            if is_self_attr(e):
+                k = self.kind(e.attr)
+                if k == "resource":
+                    return ["MEff %d" % e.lineno]
+                if k in ("link", "wrapper"):
+                    return ["MDev %d" % e.lineno]
+                return []
+            return self.ev(e.value, defcls)
+        if isinstance(e, ast.Call):
+            return self.ev_call(e, defcls)
+        if isinstance(e, ast.BoolOp):
+            first = self.ev(e.values[0], defcls)
+            rest = self.evs(e.values[1:], defcls)
+            return first + ([mchoice("MSkip", mseq(rest))] if rest else [])
+        if isinstance(e, ast.IfExp):
+            a, b = self.ev(e.body, defcls), self.ev(e.orelse, defcls)
+            return self.ev(e.test, defcls) + ([mchoice(mseq(a), mseq(b))] if a or b else [])
+        if isinstance(e, ast.Compare):
+            if len(e.ops) == 1 and isinstance(e.ops[0], (ast.Is, ast.IsNot)) and is_self_attr(e.left) \
+                    and isinstance(e.comparators[0], ast.Constant) and e.comparators[0].value is None:
+                return []
+            return self.evs([e.left] + list(e.comparators), defcls)
+        if isinstance(e, ast.BinOp):
+            return self.evs([e.left, e.right], defcls) + ["MIo %d" % e.lineno]
+        if isinstance(e, ast.UnaryOp):
+            return self.ev(e.operand, defcls) + ([] if isinstance(e.op, ast.Not) else ["MIo %d" % e.lineno])
+        if isinstance(e, ast.Subscript):
+            return self.evs([e.value, e.slice], defcls) + ["MIo %d" % e.lineno]
+        if isinstance(e, ast.Slice):
+            return self.evs([e.lower, e.upper, e.step], defcls)
+        if isinstance(e, (ast.Tuple, ast.List, ast.Set)):
+            return self.evs(e.elts, defcls)
+        if isinstance(e, ast.Dict):
+            return self.evs([x for kv in zip(e.keys, e.values) for x in kv], defcls)
+        if isinstance(e, ast.JoinedStr):
+            return self.evs(e.values, defcls)
+        if isinstance(e, ast.FormattedValue):
+            return self.evs([e.value, e.format_spec], defcls)
+        if isinstance(e, ast.Starred):
+            return self.ev(e.value, defcls)
+        if isinstance(e, ast.NamedExpr):
+            return self.ev(e.value, defcls)
+        if isinstance(e, (ast.ListComp, ast.SetComp, ast.GeneratorExp, ast.DictComp)):
+            gens = e.generators
+            first = self.ev(gens[0].iter, defcls)
+            inner = []
+            for i, g in enumerate(gens):
+                if i > 0:
+                    inner += self.ev(g.iter, defcls)
+                inner += self.evs(g.ifs, defcls)
+            inner += self.evs([e.key, e.value] if isinstance(e, ast.DictComp) else [e.elt], defcls)
+            return first + (["MLoop (%s)" % mseq(inner)] if inner else []) + ["MIo %d" % e.lineno]
+        if isinstance(e, ast.Lambda):
+            b = self.ev(e.body, defcls)
+            return [mchoice("MSkip", "MLoop (%s)" % mseq(b))] if b else []
+        if isinstance(e, ast.Yield):
+            hole = getattr(self, "_hole", None)
+            if hole is not None:             # the single yield of a @contextmanager: the `with` body runs here
+                self._hole_used += 1
+                return self.ev(e.value, defcls) + [hole]
+            return self.ev(e.value, defcls)  # plain generator: see function_body
+        if isinstance(e, ast.YieldFrom):
+            return self.ev(e.value, defcls) + ["MIo %d" % e.lineno]
+        bail(e, "unsupported expression %s" % type(e).__name__, defcls.name)
+
+    def ev_call(self, call, defcls):
+        f = call.func
+        args = self.evs(list(call.args) + [k.value for k in call.keywords], defcls)
+        line = call.lineno
+        # super().m(...)
+        sm = self.super_method_call(call)
+        if sm is not None:
+            if sm in ("open", "close", "__enter__", "__exit__"):
+                bail(call, "calls super().%s()" % sm, defcls.name)
+            c, fn = self.resolve(sm, after=defcls)
+            return args + [self.helper_atom(c, fn, line) if fn is not None else "MIo %d" % line]
+        m = self.self_method_call(call)
+        if m is not None:
+            if m in ("open", "close", "__enter__", "__exit__"):
+                bail(call, "calls self.%s()" % m, defcls.name)
+            if m == "is_open":
+                return args
+            if self.is_base_check(m):
+                return args + ["MCheckOpen" if m == "_check_is_open" else "MCheckClosed"]
+            c, fn = self.resolve(m)
+            if fn is not None:
+                return args + [self.helper_atom(c, fn, line)]
+            k = self.kind(m)
+            if k in ("link", "wrapper"):
+                return args + ["MDev %d" % line]
+            if m in self.kinds and k == "data":
+                return args + ["MIo %d" % line]
+            if any(m in kc.other for kc in self.mro):      # class-level constant / alias: value, not a resource
+                return args + ["MIo %d" % line]
+            return args + ["MEff %d" % line]                # unknown callable attribute
+        if isinstance(f, ast.Attribute):
+            root = self.root_self_attr(f.value)
+            if root is not None:
+                k = self.kind(root)
+                if k == "link":
+                    if is_self_attr(f.value) and f.attr in ("open", "close"):
+                        bail(call, "method %ss the link" % f.attr, defcls.name)
+                    if not is_self_attr(f.value) or f.attr.startswith("_"):
+                        return args + ["MEff %d" % line]     # reaches behind the transport's public API
+                    return args + ["MDev %d" % line]
+                if k == "wrapper":
+                    return args + ["MDev %d" % line]
+                if k == "resource":
+                    return args + ["MEff %d" % line]
+                return args + ["MIo %d" % line]
+            return self.ev(f.value, defcls) + args + ["MIo %d" % line]
+        if isinstance(f, ast.Name):
+            return args + ["MIo %d" % line]
+        return self.ev(f, defcls) + args + ["MIo %d" % line]
+
+    # -- helpers as named definitions --------------------------------------------------------------
+    def helper_atom(self, c, fn, line):
+        key = (c.name, fn.name)
+        if key in self.helpers:
+            h = self.helpers[key]
+            if h == "...":
+                self.notes.append("recursive helper %s.%s treated as MEff" % key)
+                return "MEff %d" % line
+            return "MIo %d" % line if h is None else "MCall %s" % h
+        self.helpers[key] = "..."
+        try:
+            text = self.function_body(fn, c)
+        except TranslationError:
+            self.helpers.pop(key, None)
+            raise
+        if not RELEVANT_RE.search(text):
+            self.helpers[key] = None
+            return "MIo %d" % line
+        name = "%s__h_%s_%s" % (self.ident, coq_ident(c.name), coq_ident(fn.name))
+        self.helpers[key] = name
+        self.defs.append((name, text, "%s.%s (%s:%d)" % (c.name, fn.name, c.relpath, fn.lineno)))
+        return "MCall %s" % name
+
+    @staticmethod
+    def is_contextmanager(fn):
+        return any((isinstance(d, ast.Name) and d.id == "contextmanager") or
+                   (isinstance(d, ast.Attribute) and d.attr == "contextmanager") for d in fn.decorator_list)
+
+    def function_body(self, fn, defcls):
+        gen = False
+        for n in ast.walk(fn):
+            if isinstance(n, ast.Await) or isinstance(fn, ast.AsyncFunctionDef):
+                bail(n, "coroutine %s" % fn.name, defcls.name)
+            if isinstance(n, (ast.Yield, ast.YieldFrom)):
+                gen = True
+        if gen and self.is_contextmanager(fn):
+            bail(fn, "@contextmanager %s used outside a `with` statement" % fn.name, defcls.name)
+        saved = getattr(self, "_hole", None)
+        self._hole = None
+        try:
+            body = mseq(self.mblock(fn.body, defcls))
+        finally:
+            self._hole = saved
+        if gen:
+            # a generator's body runs piecewise while it is consumed: any number of partial runs, from the call on
+            return "MLoop (MCall (%s))" % body
+        return body
+
+    def with_contextmanager(self, call, body_text, defcls):
+        """`with self.<cm>(...): BODY` for a @contextmanager generator method: its body with BODY at the yield"""
+        m = self.self_method_call(call)
+        if m is None:
+            return None
+        c, fn = self.resolve(m)
+        if fn is None or not self.is_contextmanager(fn):
+            return None
+        for n in ast.walk(fn):
+            if isinstance(n, (ast.Return, ast.YieldFrom)):
+                bail(n, "@contextmanager %s with return / yield from" % fn.name, c.name)
+        saved = (getattr(self, "_hole", None), getattr(self, "_hole_used", 0))
+        self._hole, self._hole_used = body_text, 0
+        try:
+            text = mseq(self.mblock(fn.body, c))
+            if self._hole_used != 1:
+                bail(fn, "@contextmanager %s does not have exactly one yield" % fn.name, c.name)
+        finally:
+            self._hole, self._hole_used = saved
+        args = self.evs(list(call.args) + [k.value for k in call.keywords], defcls)
+        return args + [text]
+
+    # -- statements ----------------------------------------------------------------------------------
+    def mblock(self, stmts, defcls):
+        out = []
+        for s in stmts:
+            out.extend(self.mstmt(s, defcls))
+        return out
+
+    def flag_test(self, t):
+        """True: test is `flag`, False: `not flag`, None: something else"""
+        def is_flag(x):
+            return is_self_attr(x, "_is_open") or (isinstance(x, ast.Call) and self.self_method_call(x) == "is_open"
+                                                   and not x.args and not x.keywords)
+        if is_flag(t):
+            return True
+        if isinstance(t, ast.UnaryOp) and isinstance(t.op, ast.Not) and is_flag(t.operand):
+            return False
+        return None
+
+    def resource_none_test(self, t):
+        """True for `self.R is not None`, False for `self.R is None` (R a None-able resource), else None"""
+        if isinstance(t, ast.Compare) and len(t.ops) == 1 and is_self_attr(t.left) \
+                and self.kind(t.left.attr) == "resource" and t.left.attr in self.nullable \
+                and isinstance(t.comparators[0], ast.Constant) and t.comparators[0].value is None:
+            if isinstance(t.ops[0], ast.IsNot):
+                self.assumed_none_when_closed.add(t.left.attr)
+                return True
+            if isinstance(t.ops[0], ast.Is):
+                self.assumed_none_when_closed.add(t.left.attr)
+                return False
+        return None
+
+    def target_events(self, t, defcls):
+        if isinstance(t, ast.Name):
+            return []
+        if is_self_attr(t):
+            if t.attr == "_is_open":
+                bail(t, "method writes self._is_open", defcls.name)
+            if t.attr in self.links:
+                bail(t, "method assigns the link attribute %s" % t.attr, defcls.name)
+            return []
+        if isinstance(t, ast.Attribute):
+            return self.ev(t.value, defcls)
+        if isinstance(t, ast.Subscript):
+            return self.evs([t.value, t.slice], defcls) + ["MIo %d" % t.lineno]
+        if isinstance(t, (ast.Tuple, ast.List)):
+            return [x for e in t.elts for x in self.target_events(e, defcls)]
+        if isinstance(t, ast.Starred):
+            return self.target_events(t.value, defcls)
+        bail(t, "unsupported assignment target", defcls.name)
+
+    def mstmt(self, s, defcls):
+        if isinstance(s, ast.Expr):
+            return self.ev(s.value, defcls)
+        if isinstance(s, ast.Assign):
+            return self.ev(s.value, defcls) + [x for t in s.targets for x in self.target_events(t, defcls)]
+        if isinstance(s, ast.AnnAssign):
+            return self.ev(s.value, defcls) + self.target_events(s.target, defcls)
+        if isinstance(s, ast.AugAssign):
+            return self.ev(s.value, defcls) + self.target_events(s.target, defcls) + ["MIo %d" % s.lineno]
+        if isinstance(s, ast.Return):
+            return self.ev(s.value, defcls) + ["MReturn"]
+        if isinstance(s, ast.Raise):
+            return self.evs([s.exc, s.cause], defcls) + ["MRaise"]
+        if isinstance(s, ast.If):
+            st = self.static_test(s.test)
+            if st is True:
+                return self.mblock(s.body, defcls)
+            if st is False:
+                return self.mblock(s.orelse, defcls)
+            a, b = mseq(self.mblock(s.body, defcls)), mseq(self.mblock(s.orelse, defcls))
+            rn_ = self.resource_none_test(s.test)
+            if rn_ is not None:
+                # ASSUMPTION (checked dynamically on every run): a resource attribute that is None-able is None
+                # whenever the instrument is closed, i.e. "resource present" implies "instrument open"
+                present, absent = (a, b) if rn_ else (b, a)
+                return [mchoice(mseq(["MAssumeOpen", present]), absent)]
+            ft = self.flag_test(s.test)
+            if ft is not None:
+                x, y = ("MAssumeOpen", "MAssumeClosed") if ft else ("MAssumeClosed", "MAssumeOpen")
+                return [mchoice(mseq([x, a]), mseq([y, b]))]
+            t = self.ev(s.test, defcls)
+            if a == "MSkip" and b == "MSkip":
+                return t
+            return t + [mchoice(a, b)]
+        if isinstance(s, ast.While):
+            t = self.ev(s.test, defcls)
+            r = t + ["MLoop (%s)" % mseq(self.mblock(s.body, defcls) + t)]
+            if s.orelse:
+                r.append(mchoice("MSkip", mseq(self.mblock(s.orelse, defcls))))
+            return r
+        if isinstance(s, ast.For):
+            r = self.ev(s.iter, defcls) + ["MLoop (%s)" % mseq(self.target_events(s.target, defcls)
+                                                             + self.mblock(s.body, defcls))]
+            if s.orelse:
+                r.append(mchoice("MSkip", mseq(self.mblock(s.orelse, defcls))))
+            return r
+        if isinstance(s, ast.Try):
+            r = mseq(self.mblock(s.body, defcls) + self.mblock(s.orelse, defcls))
+            if s.handlers:
+                alts, catch_all = [], False
+                for h in s.handlers:
+                    if h.type is None:
+                        catch_all = True
+                    else:
+                        for nm in ([h.type] if not isinstance(h.type, ast.Tuple) else h.type.elts):
+                            if isinstance(nm, ast.Name) and nm.id in ("Exception", "BaseException"):
+                                catch_all = True
+                    alts.append(mseq(self.mblock(h.body, defcls)))
+                if not catch_all or s.orelse:
+                    alts.append("MRaise")
+                hd = alts[-1]
+                for a in reversed(alts[:-1]):
+                    hd = mchoice(a, hd)
+                r = "MTry (%s) (%s)" % (r, hd)
+            if s.finalbody:
+                r = "MFinally (%s) (%s)" % (r, mseq(self.mblock(s.finalbody, defcls)))
+            return [r]
+        if isinstance(s, ast.With):
+            saved = getattr(self, "_hole", None)
+            self._hole = None            # a yield inside the with body of a contextmanager generator is not ours
+            try:
+                inner = self.mblock(s.body, defcls)
+            finally:
+                self._hole = saved
+            for it in reversed(s.items):
+                cm = self.with_contextmanager(it.context_expr, mseq(inner), defcls) \
+                    if isinstance(it.context_expr, ast.Call) else None
+                if cm is not None:
+                    inner = cm
+                else:
+                    inner = self.ev(it.context_expr, defcls) + [
+                        "MIo %d" % s.lineno, "MFinally (%s) (MIo %d)" % (mseq(inner), s.lineno)]
+            return inner
+        if isinstance(s, ast.Assert):
+            return self.evs([s.test, s.msg], defcls) + ["MIo %d" % s.lineno]
+        if isinstance(s, (ast.Pass, ast.Import, ast.ImportFrom, ast.Global, ast.Nonlocal, ast.ClassDef)):
+            return []
+        if isinstance(s, ast.Delete):
+            return [x for t in s.targets for x in self.target_events(t, defcls)] + ["MIo %d" % s.lineno]
+        if isinstance(s, (ast.Break, ast.Continue)):
+            return ["MBreak"]
+        if isinstance(s, ast.FunctionDef):
+            b = self.function_body(s, defcls)
+            if RELEVANT_RE.search(b):
+                return [mchoice("MSkip", "MLoop (MCall (%s))" % b)]
+            return []
+        bail(s, "unsupported statement %s" % type(s).__name__, defcls.name)
+
+    # -- entry ------------------------------------------------------------------------------------------
+    def rpc_methods(self):
+        names = []
+        for k in self.mro:
+            if k is self.base:
+                continue
+            for n in k.methods:
+                if n not in names and n not in ("open", "close"):
+                    names.append(n)
+        out = []
+        for n in sorted(names):
+            c, fn = self.resolve(n)
+            if c is self.base or fn is None:
+                continue
+            if any((isinstance(d, ast.Name) and d.id == "rpc_method") for d in fn.decorator_list):
+                out.append((n, c, fn))
+        return out
+
+    def translate_methods(self):
+        done, skipped = [], []
+        for n, c, fn in self.rpc_methods():
+            others = [ast.unparse(d) for d in fn.decorator_list if not (isinstance(d, ast.Name) and d.id == "rpc_method")]
+            try:
+                if others:
+                    raise TranslationError("%s line %d: extra decorators %s" % (c.name, fn.lineno, others))
+                nd = len(self.defs)
+                text = "MCall (%s)" % self.function_body(fn, c)
+                done.append({"name": n, "ident": "%s__m_%s" % (self.ident, coq_ident(n)), "prog": text,
+                             "defcls": c.name, "def": "%s.%s (%s:%d)" % (c.name, n, c.relpath, fn.lineno),
+                             "ndefs": len(self.defs)})
+            except TranslationError as e:
+                del self.defs[nd:]
+                for k, v in list(self.helpers.items()):
+                    if v == "..." or (v is not None and v not in [d[0] for d in self.defs]):
+                        self.helpers.pop(k)
+                skipped.append({"name": n, "defcls": c.name, "reason": str(e)})
+        return done, skipped
+
+
+IO_METHODS = ("write", "read", "read_until", "read_until_timeout", "discard_read")
+
+
+def wrapper_facts(c):
+    """a protocol class reaches the device only through the public I/O methods of the transport it was given:
+    every call `self.<attr>.<m>(...)` in the class is on ONE attribute, which __init__ binds to a constructor
+    parameter, with m one of the transport I/O methods.  -> list of problems"""
+    bad = []
+    init = c.methods.get("__init__")
+    params = {a.arg for a in init.args.args} if init else set()
+    stored = set()
+    if init:
+        for n in ast.walk(init):
+            if isinstance(n, (ast.Assign, ast.AnnAssign)) and isinstance(n.value, ast.Name) and n.value.id in params:
+                for t in (n.targets if isinstance(n, ast.Assign) else [n.target]):
+                    if is_self_attr(t):
+                        stored.add(t.attr)
+    recv = set()
+    for fn in c.methods.values():
+        for n in ast.walk(fn):
+            if isinstance(n, ast.Call) and isinstance(n.func, ast.Attribute) and is_self_attr(n.func.value):
+                a, m = n.func.value.attr, n.func.attr
+                if a in stored and m in IO_METHODS:
+                    recv.add(a)
+                elif a in stored:
+                    bad.append("%s calls %s.%s (not a transport I/O method)" % (c.name, a, m))
+                else:
+                    # calls on plain data attributes (bytes, str ...) are fine only for known pure names
+                    if m not in ("encode", "decode", "format", "strip", "rstrip", "lstrip", "split", "join", "get",
+                                 "startswith", "endswith", "find", "append", "extend", "pop", "items", "keys", "values"):
+                        bad.append("%s calls self.%s.%s()" % (c.name, a, m))
+    if len(recv) != 1:
+        bad.append("%s talks to %d transport attributes %s" % (c.name, len(recv), sorted(recv)))
+    return bad
+
+
+def transport_io_survey(table):
+    """which I/O methods of the real transports refuse by themselves when the transport is closed (first statement
+    is self._check_is_open()); the others delegate to one that does or only look at already-buffered data.  This is
+    what [MDev] on a released link stands for; the transports themselves are the subject of C13."""
+    tr = table.classes.get(("qmi.core.transport", "QMI_Transport"))
+    out = {}
+    for c in table.classes.values():
+        if c.module != "qmi.core.transport" or c is tr:
+            continue
+        m = table.mro(c)
+        if not m or tr not in m:
+            continue
+        for name in IO_METHODS:
+            k = next((k for k in m if name in k.methods), None)
+            if k is None or k is tr:
+                continue
+            b = _body(k.methods[name])
+            first = b[0] if b else None
+            if isinstance(first, ast.Expr) and isinstance(first.value, ast.Call) and is_self_attr(first.value.func, "_check_is_open"):
+                out["%s.%s" % (c.name, name)] = "refuses first"
+            elif isinstance(first, ast.Raise):
+                out["%s.%s" % (c.name, name)] = "not implemented"
+            else:
+                out["%s.%s" % (c.name, name)] = "no check of its own (delegates / buffered data)"
+    return out
+
+
+def translate_all_methods(repo, res=None):
+    """-> per class ident: dict(defs=[(name, text, origin)], methods=[...], skipped=[...], kinds={attr: kind})"""
+    table = Table(repo)
+    for f in ("qmi/core/instrument.py", "qmi/core/transport.py", "qmi/core/scpi_protocol.py"):
+        table.load(f)
+    idir = os.path.join(repo, "qmi", "instruments")
+    for pkg in sorted(os.listdir(idir)):
+        d = os.path.join(idir, pkg)
+        if os.path.isdir(d):
+            for fn in sorted(os.listdir(d)):
+                if fn.endswith(".py"):
+                    table.load("qmi/instruments/%s/%s" % (pkg, fn))
+    table.resolve_bases()
+    base = table.classes.get(("qmi.core.instrument", "QMI_Instrument"))
+    res = res or translate(repo)
+    entries = list(res["classes"]) + [x["entry"] for x in res["not_covered"] if "entry" in x]
+    out = {}
+    translate_all_methods.survey = transport_io_survey(table)
+    for e in entries:
+        c = table.classes[(e["module"], e["class"])]
+        mro = table.mro(c)
+        ctx = MCtx(table, c, mro, e["links"], e["live"], base, e["ident"])
+        done, skipped = ctx.translate_methods()
+        out[e["ident"]] = {"defs": ctx.defs, "methods": done, "skipped": skipped,
+                           "kinds": {k: v for k, v in ctx.kinds.items() if v != "data"}, "notes": ctx.notes,
+                           "none_when_closed": sorted(ctx.assumed_none_when_closed),
+                           "wrapper_facts": sorted({p for a, wc in ctx.wrapper_classes.items()
+                                                    for p in wrapper_facts(wc)})}
+    return out
+
+
+MHEADER = """(* GENERATED by harness/translators/t_c19_openclose.py from %(repo)s — do not edit.
+   Every @rpc_method (other than open/close) of every transport-based driver class as a term of [mprog]; helpers
+   that can reach the device or check the state are separate definitions referenced through MCall. *)
+From Coq Require Import List Bool NArith String.
+Import ListNotations.
+Require Import QV.C19.Model.
+Local Open Scope N_scope.
+
+"""
+
+
+def emit_method_programs(mres, repo):
+    o = [MHEADER % {"repo": repo}]
+    for ident, r in mres.items():
+        o.append("(* ---- %s ---- *)\n" % ident)
+        emitted = set()
+        for name, text, origin in r["defs"]:
+            if name in emitted:
+                continue
+            emitted.add(name)
+            o.append("(* %s *)\nDefinition %s : mprog :=\n  %s.\n" % (origin, name, text))
+        for m in r["methods"]:
+            o.append("(* %s *)\nDefinition %s : mprog :=\n  %s.\n" % (m["def"], m["ident"], m["prog"]))
+        o.append("Definition methods_%s : list (string * mprog) := [\n%s\n].\n\n" % (
+            ident, ";\n".join('  ("%s"%%string, %s)' % (m["ident"], m["ident"]) for m in r["methods"])))
+    o.append("Definition all_methods : list (string * mprog) :=\n  %s.\n" % (
+        " ++ ".join("methods_%s" % i for i in mres) or "[]"))
+    o.append("Definition method_verdicts : list (string * (bool * bool * bool)) :=\n"
+             "  map (fun d => (fst d, (closed_safe (snd d), rn (an false false (snd d)), rx (an false false (snd d))))) all_methods.\n")
+    return "".join(o)
+
+
+def emit_method_obligations(mres, verdicts):
+    o = ["\n(* ---- per-method obligations (verdicts computed by vm_compute of `method_verdicts`) ---- *)\n"]
+    for ident, r in mres.items():
+        for m in r["methods"]:
+            if verdicts[m["ident"]][0]:
+                o.append("Lemma %s_closed_safe : closed_safe %s = true.\nProof. vm_compute. reflexivity. Qed.\n"
+                         % (m["ident"], m["ident"]))
+            else:
+                o.append("Lemma %s_unguarded : closed_safe %s = false.\nProof. vm_compute. reflexivity. Qed.\n"
+                         % (m["ident"], m["ident"]))
+    return "".join(o)
+
+
+
 HEADER = """(* GENERATED by harness/translators/t_c19_openclose.py from %(repo)s — do not edit.
    One (open, close) effect-language program pair per transport-based driver class; `Io n`, `LinkOpen n`,
    `LinkClose n` carry the source line n of the statement they stand for. *)
